@@ -1,4 +1,4 @@
 #!/bin/bash
 # development aid: run a check against a clean scratch clone of /repo (see driver/verif.py VERIF_DEV_*)
 rsync -a --exclude target --exclude Cargo.toml /verif/harness/ /tmp/devharness/
-VERIF_DEV_HARNESS=/tmp/devharness VERIF_DEV_WORK=/tmp/devwork VERIF_DEV_REPO=/tmp/devrepo python3 /verif/driver/verif.py "$@"
+VERIF_DEV_SPEC=${VERIF_DEV_SPEC:-/verif/spec} VERIF_DEV_HARNESS=/tmp/devharness VERIF_DEV_WORK=/tmp/devwork VERIF_DEV_REPO=/tmp/devrepo python3 /verif/driver/verif.py "$@"
